@@ -313,7 +313,14 @@ class Sym(BaseSym):
             raise IgnoreAttempt('constraint false')
 
     def close(self, a, b, tol=None):
-        return a == b
+        r = a == b
+        with NoTracing():
+            if isinstance(r, SymbolicBool) and isinstance(a, RealBasedSymbolicFloat):
+                bv = b.var if isinstance(b, RealBasedSymbolicFloat) else (z3.RealVal(repr(float(b))) if isinstance(b, (int, float)) else None)
+                if bv is not None:
+                    self._closes = getattr(self, '_closes', {})
+                    self._closes[r.var.get_id()] = (r.var, a.var, bv)
+        return r
 
     def model_values(self, budget_s=None):
         """A concrete assignment of all inputs satisfying the current path condition.
@@ -379,7 +386,17 @@ class Sym(BaseSym):
                 self.space.add(cond.var)
                 return
             if res == 'sat':
-                # let the engine pick this branch: add the negation and fail
+                # let the engine pick this branch: add the negation and fail.  For an equality made by close(): prefer a
+                # counterexample in which the two sides differ by a margin, so that it survives the tolerance of the concrete replay
+                pair = getattr(self, '_closes', {}).get(cond.var.get_id())
+                margin = self.B.get('cex_margin')
+                if pair is not None and margin:
+                    _, av, bv = pair
+                    far = z3.Or(av - bv > z3.RealVal(repr(margin)), bv - av > z3.RealVal(repr(margin)))
+                    r2, _ = portfolio.check_unsat(list(self.space.solver.assertions()), extra=[far], timeout_s=20, use_cvc5=False)
+                    if r2 == 'sat':
+                        self.space.add(far)
+                        raise AssertionError('obligation refuted: ' + what)
                 self.space.add(z3.Not(cond.var))
                 raise AssertionError('obligation refuted: ' + what)
             raise Inconclusive(f'obligation undecided by all back ends: {what}')
